@@ -1,1 +1,16 @@
 import BddVerif.Props.C10
+#print axioms B.Props.C10.conjFn_iff
+#print axioms B.Props.C10.disjFn_iff
+#print axioms B.Props.C10.dnfFn_iff
+#print axioms B.Props.C10.cnfFn_iff
+#print axioms B.Props.C10.mk_dnf_spec
+#print axioms B.Props.C10.mk_cnf_spec
+#print axioms B.Props.C10.mk_dnf_canon
+#print axioms B.Props.C10.mk_cnf_canon
+#print axioms B.Props.C10.clause_ctor_spec
+#print axioms B.Props.C10.to_dnf_sem
+#print axioms B.Props.C10.to_cnf_sem
+#print axioms B.Props.C10.to_dnf_false
+#print axioms B.Props.C10.to_cnf_false
+#print axioms B.Props.C10.dnf_roundtrip
+#print axioms B.Props.C10.cnf_roundtrip
